@@ -370,6 +370,15 @@ func BuildArgv(g *GenSpec, w *World, root, top string) (argv []string, dir strin
 	case "rel":
 		dir = filepath.Dir(root)
 		argv = append(argv, "-cwd", "./"+filepath.Base(root))
+	case "dotdot-symlink":
+		// the process is started inside a symbolic link that points INTO the module (a
+		// sub-directory) and passes `-cwd ..`: the operating system resolves that to the module
+		// root, $PWD/.. is the directory that holds the link
+		link := filepath.Join(top, "sublink")
+		_ = os.Remove(link)
+		_ = os.Symlink(filepath.Join(root, "_cwdsub"), link)
+		dir = link
+		argv = append(argv, "-cwd", "..")
 	case "chdir-symlink", "symlink-rel":
 		// the process is started inside a symbolic link to the module root (PWD names the
 		// link); symlink-rel additionally passes `-cwd .`
@@ -469,6 +478,9 @@ func settle(root string) error {
 func (r *Runner) gen(root, top string, w *World, g *GenSpec, inputs map[string]string) (*Obs, error) {
 	if err := settle(root); err != nil {
 		return nil, &InfraError{Msg: "settle: " + err.Error()}
+	}
+	if g.Cwd == "dotdot-symlink" {
+		_ = os.MkdirAll(filepath.Join(root, "_cwdsub"), 0o755)
 	}
 	before, err := TakeSnapshot(root)
 	if err != nil {
